@@ -68,7 +68,7 @@ var coreRule = "one evaluation = one simulated run of a generated program (1-3 c
 var props = map[string]propSpec{
 	"C01": {Profiles: []profSpec{{"c01", 0.55}, {"c01f", 0.25}, {"wcut", 0.2}}, Level: "exploration", Rule: coreRule},
 	"C02": {Profiles: []profSpec{{"c02", 0.45}, {"c02f", 0.25}, {"wcut", 0.15}, {"c04e", 0.15}}, Level: "exploration", Rule: coreRule},
-	"C03": {Profiles: []profSpec{{"c03", 0.8}, {"c04e", 0.2}}, Level: "exploration", Rule: coreRule},
+	"C03": {Profiles: []profSpec{{"c03", 0.75}, {"c04e", 0.25}}, Level: "exploration", Rule: coreRule},
 	"C04": {Profiles: []profSpec{{"c04", 0.65}, {"c04e", 0.35}, {"c04gc", 0.01}}, Level: "exploration", Rule: coreRule},
 	"C05": {Profiles: []profSpec{{"c05", 0.62}, {"wcut", 0.14}, {"c04e", 0.14}, {"c07r", 0.1}}, Level: "exploration", Rule: coreRule},
 	"C06": {Profiles: []profSpec{{"c06", 0.85}, {"c04e", 0.15}}, Level: "exploration", Rule: coreRule},
